@@ -42,8 +42,8 @@ def run(chk):
            ('and', ('forall', 'x', 'd', ('EX', X)), ('not', ('exists', 'x', 'e', ('AX', X)))), ('EU', W, ('forall', 'x', 'd', ('jump', 'x', P0)))]
     forms = ext + core[::1 if thorough else 2] + rnd
     ncol = 20 if thorough else 5
-    for inst in UC.instances(['U2', 'C2', 'M2'] + (['U3'] if thorough else [])):
-        fs = [f for f in forms if inst.name != 'M2' or not (S.labels(f)[0] | S.labels(f)[1]) - set(inst.ctx)] if inst.n == 2 else [f for f in G.core_plain(['v0', 'v2']) if S.depth(f) <= 2 and S.quant_depth(f) <= 1]
+    for inst in UC.instances(['U2', 'C2', 'M2', 'I3', 'F2'] + (['U3'] if thorough else [])):
+        fs = [f for f in forms if not (S.labels(f)[0] | S.labels(f)[1]) - set(inst.ctx)] if inst.n == 2 else [f for f in G.core_plain(['v0', 'v2']) if S.depth(f) <= (3 if inst.name == 'I3' else 2) and S.quant_depth(f) <= 1]
         for i in range(0, len(fs), 10):
             chunk = fs[i:i + 10]
             k = max(S.quant_depth(f) for f in chunk) or 1
